@@ -15,7 +15,7 @@ from sx.harness import exc_site
 
 PROPERTY = "C14"
 LEVEL = "model_checking"
-OPTIONS = {"quick": {"max_paths": 100000, "unit_budget_s": 900}, "thorough": {"max_paths": 1000000, "unit_budget_s": 3000}}
+OPTIONS = {"quick": {"max_paths": 100000, "unit_budget_s": 600}, "thorough": {"max_paths": 1000000, "unit_budget_s": 3000}}
 BOUNDS = {
     "quick": {"items": "every item production: simple x4 operators, present, substring (all presence combinations, 0..2 any), extensible (attr/dnattrs/matchingrule combinations)", "values": "0..3 pieces per value; each piece normal-ASCII / UTF-8 2-4 octets / escape with symbolic hex digits in either case", "attributes": "all RFC 4512 attribute descriptions of length 1..3 in the first position, one letter elsewhere", "nesting": "and / or / not over items, depth <= 3, lists of 1..2", "dn keyword": "dn, DN, Dn, dN", "spaces": "0..2 spaces around the filter, after '(' of a complex filter, between sub-filters, before the closing ')' of a complex filter"},
     "thorough": {"values": "0..4 pieces", "attributes": "length 1..5", "nesting": "depth <= 4 + not^40 chain"},
